@@ -17,6 +17,10 @@ Ops     : ('pinv',)       t := t.pseudoinverse()            -- model: forward an
                                                                 the operand is accepted is C03's question)
           ('pinv_vec',)    query: VInvertible.pseudoinverse_vector
           ('tc_pair',)     query: image_coords_to_tcoords(shape) inverts tcoords_to_image_coords(shape)
+          ('apply_forms',) query: probe points handed to apply() as int64/int32/float32/read-only/strided/Fortran arrays
+Roots   : besides the parameter letters, 'argument form' letters (root suffix ('form', coordinate form, source container,
+          target container)): one representative letter per class x every dtype / sequence / view / container form that
+          the unchanged tree accepts; the model is computed in float64 from the values that were handed over
 Oracle  : p = t.pseudoinverse():  p(t(X)) == X and t(p(X')) == X' on probe points of the respective domains, p equals
           the reference inverse map, p is an honest member of a homogeneous-family class (or the same warp class),
           alignments: source/target exchanged exactly and p.h_matrix . t.h_matrix == I, warps: every target landmark is
@@ -1445,7 +1449,7 @@ class C04(Check):
         by = {}
         for r in roots:
             by[r[0]] = by.get(r[0], 0) + 1
-        return {"roots": len(roots), "roots_by_family": by, "ops": ["pinv", "retarget", "compose", "pinv_vec", "tc_pair"], "compose_operands": COMPOSE_OPERANDS, "max_composes_per_history": self.max_composes(), "max_retargets_per_history": self.max_retargets()}
+        return {"roots": len(roots), "roots_by_family": by, "argument_form_roots": len(form_letters(self.tier)), "probe_forms": list(self.PROBE_FORMS), "ops": ["pinv", "retarget", "compose", "pinv_vec", "tc_pair", "apply_forms"], "compose_operands": COMPOSE_OPERANDS, "max_composes_per_history": self.max_composes(), "max_retargets_per_history": self.max_retargets()}
 
     def assumptions(self):
         return [
@@ -1458,6 +1462,9 @@ class C04(Check):
             "[interp] the class of a homogeneous inverse may be any homogeneous-family class as long as the honesty predicates of that class hold; warps must return their own class",
             "[interp] compose_*_inplace only produces non-initial transforms: acceptance of the operand is not judged, an accepted composition moves the model by the documented composition law",
             "[interp] set_target (retarget op) only produces non-initial alignments: its fit is not judged here; for homogeneous alignments the model is re-baselined from the re-fitted h_matrix",
+            "argument forms: every class is also built from the same payload as float32 / int64 / int32 / int16 / uint8 arrays (integer letters: coordinates on the grid round(%g x generic) for alignments and PWA, round(%g x generic) for TPS; small non-negative integer matrices / vectors for the plain classes), read-only, strided and Fortran-order views, python lists / tuples (vectors and landmark sets; matrix constructors reject sequences), python / numpy scalars (UniformScale); landmark containers PointCloud / TriMesh (same, other explicit, default Delaunay trilist) / PointUndirectedGraph for source and target; the reference model only sees the float64 values of what was handed over; probe points are applied as int64 / int32 / float32 / read-only / strided / Fortran arrays too" % (QUANT["A"], QUANT["TPS"]),
+            "float32 payloads (menpo then computes in float32) are compared at 1e-3 relative; [interp] for float32 PWA letters landmarks are approached from inside their triangles (weights 1-1e-3) because containment of the vertex itself is decided by float32 rounding; bool coordinates are not meaningful and not enumerated",
+            "forms excluded because the unchanged tree mishandles them for reasons outside C04 (reported): " + "; ".join("%s with %s (%s)" % (k[0], k[1], v) for k, v in sorted(FORM_EXCLUDED.items())),
             "singular / ill-conditioned parameter values, folding PWA targets, collinear or coincident landmarks are outside the quantifier and are not enumerated",
         ]
 
